@@ -4,7 +4,8 @@ from vxlib.symx import And, Or, Not, Implies, SymMap
 from vxlib.symx.stream import make_stream
 
 PROPERTY = 'C12'
-STUBS = ['struct.unpack model', 'SymStream', 'SymMap for the thread tables', 'plistlib runs on concrete bytes (v3 blocks)']
+STUBS = ['struct.unpack model', 'SymStream', 'SymMap for the thread tables', 'plistlib runs on concrete bytes (v3 blocks)',
+         'structure crosshair: none (CrossHair 0.0.110 executes _is_eventid_allowed itself, in a subprocess without shims)']
 ASSUMPTIONS = ['v2 files: the first record does not begin with 0x00 (C02 known finding)',
                'v3 files: log records are concrete representatives (plist = C boundary); event records symbolic']
 OUTSIDE = ['more than 3 records / 2 filter entries per list', 'log contents other than the representatives']
@@ -43,6 +44,8 @@ def structures(tier):
     sts.append({'kind': 'v2', 'm': 1, 'tid': False, 'nc': 1, 'ns': 3})
     for edit in ('append-class', 'remove-class', 'append-subclass', 'clear'):
         sts.append({'kind': 'edit', 'm': 2, 'edit': edit})
+    # second engine on the admission predicate: CrossHair (its own symbolic ints and lists, its own path exploration)
+    sts.append({'kind': 'crosshair', 'maxlen': 2 if tier == 'quick' else 3, 'timeout': 60 if tier == 'quick' else 240})
     return sts
 
 
@@ -104,9 +107,118 @@ def run_edit(ctx, st):
     ctx.reach()
 
 
+CH_TEMPLATE = '''from typing import List
+from pykdebugparser.pykdebugparser import PyKdebugParser
+
+
+def allowed(event_id: int, fc: List[int], fs: List[int], extra: List[int]) -> bool:
+    """
+    pre: 0 <= event_id < 2**32
+    pre: len(fc) <= %(n)d and len(fs) <= %(n)d and len(extra) <= 1
+    post: _ == (any((event_id >> 24) == c for c in fc) or any((event_id >> 24) == c for c in extra) or any((event_id >> 16) == s for s in fs))
+    """
+    p = PyKdebugParser()
+    p.filter_class = fc
+    p.filter_subclass = fs
+    return bool(p._is_eventid_allowed(event_id, extra))
+
+
+def twin(event_id: int, fc: List[int], fs: List[int], extra: List[int]) -> bool:
+    """
+    pre: 0 <= event_id < 2**32
+    pre: len(fc) <= %(n)d and len(fs) <= %(n)d and len(extra) <= 1
+    post: _ == False
+    """
+    p = PyKdebugParser()
+    p.filter_class = fc
+    p.filter_subclass = fs
+    return bool(p._is_eventid_allowed(event_id, extra))
+'''
+
+
+def _crosshair(st):
+    """-> ('confirmed', None) | ('counterexample', (event_id, fc, fs, extra)) | ('inconclusive', text)"""
+    import ast, os, re, shutil, subprocess, sys, tempfile
+    from vxlib.paths import REPO
+    d = tempfile.mkdtemp(prefix='vxch')
+    try:
+        f = os.path.join(d, 'ch_c12.py')
+        open(f, 'w').write(CH_TEMPLATE % {'n': st['maxlen']})
+        env = dict(os.environ, PYTHONPATH=REPO, PYTHONDONTWRITEBYTECODE='1')
+        try:
+            r = subprocess.run([sys.executable, '-m', 'crosshair', 'check', '--report_all', '--per_condition_timeout',
+                                str(st['timeout']), f], capture_output=True, text=True, env=env, timeout=4 * st['timeout'] + 60)
+        except subprocess.TimeoutExpired:
+            return 'inconclusive', 'crosshair did not finish'
+        out = r.stdout + r.stderr
+    finally:
+        shutil.rmtree(d, ignore_errors=True)
+    lines = {}
+    for ln in out.splitlines():
+        m = re.match(r'.*ch_c12\.py:(\d+): (\w+): (.*)', ln)
+        if m:
+            lines.setdefault('allowed' if int(m.group(1)) < 18 else 'twin', []).append((m.group(2), m.group(3)))
+    tw = lines.get('twin', [])
+    if not any(k == 'error' and 'when calling twin(' in t for k, t in tw):
+        return 'inconclusive', 'vacuity twin was not refuted: %s' % (out.strip()[-300:],)
+    al = lines.get('allowed', [])
+    for k, t in al:
+        if k == 'error':
+            m = re.search(r'when calling allowed\((.*)\) \(which returns', t)
+            if m:
+                try:
+                    args = ast.literal_eval('(' + m.group(1) + ',)')
+                    return 'counterexample', args
+                except Exception:       # noqa
+                    pass
+            return 'inconclusive', 'crosshair reports %s' % t[:300]
+    if any(k == 'info' and 'Confirmed over all paths' in t for k, t in al):
+        return 'confirmed', None
+    return 'inconclusive', 'crosshair: %s' % (out.strip()[-300:],)
+
+
+def run_crosshair(ctx, st):
+    """CrossHair decides `_is_eventid_allowed` against the union specification for all 32-bit event ids and all lists of
+    at most maxlen ints; a counterexample pins this harness's inputs and is judged (and replayed) like any other"""
+    from pykdebugparser.pykdebugparser import PyKdebugParser
+    from vxlib.symx import Unsupported
+    n = st['maxlen']
+    eid = ctx.int('event_id', 32)
+    nfc, nfs, nex = ctx.int('nfc', 2), ctx.int('nfs', 2), ctx.int('nex', 1)
+    fc = [ctx.int('c%d' % i) for i in range(n)]
+    fs = [ctx.int('s%d' % i) for i in range(n)]
+    ex = [ctx.int('x0')]
+    if ctx.symbolic:
+        verdict, info = _crosshair(st)
+        if verdict == 'inconclusive':
+            raise Unsupported('CrossHair gave no verdict: %s' % info)
+        if verdict == 'confirmed':
+            ctx.check('C12/crosshair/admission-is-the-union', True)
+            ctx.reach()
+            return
+        e, a, b, c = info
+        ctx.assume(And(eid == e, nfc == len(a), nfs == len(b), nex == len(c)))
+        for i in range(n):
+            ctx.assume(fc[i] == (a[i] if i < len(a) else 0))
+            ctx.assume(fs[i] == (b[i] if i < len(b) else 0))
+        ctx.assume(ex[0] == (c[0] if c else 0))
+        eid, fc, fs, ex = e, list(a), list(b), list(c)
+    else:
+        fc, fs, ex = fc[:nfc], fs[:nfs], ex[:nex]
+    p = PyKdebugParser()
+    p.filter_class, p.filter_subclass = list(fc), list(fs)
+    got = bool(p._is_eventid_allowed(eid, list(ex)))
+    want = any((eid >> 24) == c for c in fc) or any((eid >> 24) == c for c in ex) or any((eid >> 16) == s for s in fs)
+    ctx.check('C12/crosshair/admission-is-the-union', got == want,
+              '_is_eventid_allowed(%#x, %r) with classes %r subclasses %r -> %r' % (eid, ex, fc, fs, got))
+    ctx.reach()
+
+
 def run(ctx, st):
     if st['kind'] == 'edit':
         return run_edit(ctx, st)
+    if st['kind'] == 'crosshair':
+        return run_crosshair(ctx, st)
     if st['kind'] == 'v2':
         return run_v2(ctx, st)
     return run_v3(ctx, st)
